@@ -372,14 +372,17 @@ theorem select_star_rows_plan (f : Expr) (store : Storage.Store) (hs : store.Sor
 def specHolds (P : Expr) (p : Storage.Pair) : Bool := Spec.holds P ⟨p.1, p.2⟩
 
 /-- what the constant-folding theorem (C04) has to provide about the folded WHERE `f` and the
-    parsed WHERE `P`: wherever `P` evaluates, `f` evaluates to the same value.  (The equation
-    `exec f kv Ctx.off = exec P kv Ctx.off` for all `kv` implies it; the implication is all that
-    is needed, and it stays true when folding removes a failing operand, as in `x & false`.) -/
+    parsed WHERE `P`: wherever `P` evaluates to a Boolean, `f` evaluates to the same Boolean.
+    This is exactly `Kvql.Properties.C04.fold_preserves_where` at `c := Ctx.off`.  (Only Booleans:
+    for texts folding changes the Go kind, `'a' + 'b'` is a `string`, its folded literal a
+    `[]byte`; and only the implication: the equation `exec f = exec P` fails when folding removes
+    a failing operand, as in `x & false`.) -/
 def FoldPreserves (P f : Expr) : Prop :=
-  ∀ (kv : Pair) (v : Value), exec P kv Ctx.off = (.ok v, Ctx.off) → exec f kv Ctx.off = (.ok v, Ctx.off)
+  ∀ (kv : Pair) (b : Bool), exec P kv Ctx.off = (.ok (.bool b), Ctx.off) →
+    exec f kv Ctx.off = (.ok (.bool b), Ctx.off)
 
 theorem FoldPreserves.of_eq {P f : Expr} (h : ∀ kv, exec f kv Ctx.off = exec P kv Ctx.off) : FoldPreserves P f :=
-  fun kv v hv => by rw [h kv]; exact hv
+  fun kv b hv => by rw [h kv]; exact hv
 
 /-- on a pair where the reference evaluates `P` as a condition, the folded filter gives that verdict -/
 theorem exec_of_spec {P f : Expr} (hfold : FoldPreserves P f) (hP : CoreLang P) {p : Storage.Pair}
